@@ -22,6 +22,8 @@ import PsutilModel.Proofs.C05Table
 import PsutilModel.Proofs.C05Spec
 import PsutilModel.Proofs.C05Stat
 import PsutilModel.Proofs.C05Dyn
+import PsutilModel.Proofs.C05Static
+import PsutilModel.Proofs.C05Soft
 import PsutilModel.Model.C05Gen
 namespace Psutil.C05
 open Spec
@@ -305,7 +307,8 @@ theorem C05_stat_roundtrip (pid : Nat) (comm state : Bytes) (ppid : Nat) (pre : 
   `ppid_map()` reads the stat files (ANY of them may be gone or unreadable), `wl` the world in which
   each child is examined afterwards. `W i` are the worlds the i-th `parent()` call of `parents()` sees. -/
 
-theorem xcfg_good : xcfg.mapSkipsDenied = true ∧ xcfg.base = cfg := ⟨by decide, rfl⟩
+theorem xcfg_good : (xcfg.mapSkipsDenied = true ∧ xcfg.mapSkipsGone = true) ∧ xcfg.base = cfg :=
+  ⟨⟨by decide, by decide⟩, rfl⟩
 
 /-- a process readable when `ppid_map()` ran is not unreadable when it is examined -/
 def StaysReadable (L : List Nat) (w0 wl : XWorld) : Prop :=
@@ -688,5 +691,249 @@ example : Tok [83] ∧ (∀ t ∈ List.replicate 17 [48], Tok t) ∧ (∀ t ∈ 
   · intro t ht
     rw [List.eq_of_mem_replicate ht]
     exact h 48 (by decide) (by decide)
+
+/-! ## Round 3
+
+  ### (a) the rich model of `parent()` / `parents()` IS the plain one on constant readable tables
+  (until this round only tested by the driver's flag `old_agrees`; now proved, for EVERY configuration) -/
+
+/-- **C05_static_parent_refines.** On a table that stays the same during the call and whose stat files are
+    all readable (zombies included), one `parent()` of the rich model (a world per look-up) equals `parent()`
+    of the plain model: same result, same `_LOWEST_PID` afterwards, same flags on the object. -/
+theorem C05_static_parent_refines (c : Cfg) (ps : Ps) (T : XTable) (hT : T.Readable) (me : Caller) (os : Oneshot)
+    (hos : ∀ pp, os ≠ some (some pp)) :
+    (parentX c ps (stepOfX T) me os).1 = (parent c ps T.plain me).1
+      ∧ (parentX c ps (stepOfX T) me os).2.1 = (parent c ps T.plain me).2.1
+      ∧ (parentX c ps (stepOfX T) me os).2.2.2 = XOut.ofOut (parent c ps T.plain me).2.2 :=
+  parentX_static c ps hT me os hos
+
+/-- **C05_static_parents_refines.** Same for `parents()`, with any fuel (in particular the fuel
+    `parentsFuel` of the plain model, and the 4098 iterations the driver allows). -/
+theorem C05_static_parents_refines (c : Cfg) (fuel : Nat) (ps : Ps) (T : XTable) (hT : T.Readable) (me : Caller)
+    (os : Oneshot) (hos : ∀ pp, os ≠ some (some pp)) :
+    (parentsX c fuel ps (fun _ => stepOfX T) me os).2 = XOut.ofOut (parentsLoop c T.plain fuel ps [me.pid] me []).2 :=
+  (parentsLoopX_static c hT fuel 0 ps [me.pid] me os [] hos).2
+
+/-- …hence every theorem about the plain model speaks about the rich one: on a constant readable
+    table (running processes and zombies) the rich `parents()` returns the `Chain` of the table. -/
+theorem C05_static_parents_chain (ps : Ps) (T : XTable) (hT : T.Readable) (me : Caller)
+    (hfresh : ps.lowest = none ∨ ps.lowest = minPid? T.plain) (hr : me.reused = false)
+    (hgone : me.gone = false) (hl : lookOf T.plain me.pid = some me.ctime) :
+    ∃ l, (parentsX cfg (parentsFuel T.plain) ps (fun _ => stepOfX T) me none).2 = .ok l
+      ∧ Chain T.plain [me.pid] me.pid me.ctime l := by
+  obtain ⟨l, h1, h2⟩ := C05_parents_chain ps T.plain me hfresh hr hgone hl
+  refine ⟨l, ?_, h2⟩
+  rw [C05_static_parents_refines cfg _ ps T hT me none (by intro pp h; cases h)]
+  have : (parentsLoop cfg T.plain (parentsFuel T.plain) ps [me.pid] me []).2 = .ok l := by
+    simpa [parents] using h1
+  rw [this]; rfl
+
+/-- a plain table seen as an extended one: everything readable, and it is the same table -/
+example (T : Table) : (Table.toX T).Readable ∧ (Table.toX T).plain = T := ⟨toX_readable T, toX_plain T⟩
+
+/-! ### (b) what the property says where the specification used to be silent
+
+  The statement quantifies over process TABLES (parent links, start times, processes vanishing); which
+  stat files the reader may open is not part of it, and `AccessDenied` is the subject of C03. What the
+  statement does cover, whatever is unreadable:
+    * "all of these raise NoSuchProcess when the caller's own PID has been recycled" — also when the
+      new owner's stat file, or anything else, cannot be read (`C05_dead_caller_NSP_X`,
+      `C05_recycled_caller_NSP_X`, `C05_parents_dyn_dead_NSP`);
+    * a value that IS returned is the right one: processes turning unreadable while `children()` walks
+      can make it raise `AccessDenied(child)` (C03's matter) but never make it return a wrong set
+      (`C05_children_value_exact`, `C05_children_outcomes`); `parent()` likewise (`C05_parent_dyn_sound`;
+      for `parents()` this is `C05_parents_dyn_links`, which has no hypothesis on the worlds).
+  Not covered (spec silent, model-only): WHICH exception an unreadable stat file on the path of
+  `parent()`/`parents()` produces, and a caller whose own stat file is unreadable while it is still the
+  same incarnation (as found: `C05_unreadable_caller_NSP`). -/
+
+/-- **C05_dead_caller_NSP_X.** In the rich world: if the incarnation the object was built for does not
+    visibly own its PID when the identity is checked (gone, another start time, stat unreadable), or the
+    object is flagged, `children()` raises NoSuchProcess(pid) — for ANY listing, ANY set of unreadable or
+    vanished processes at snapshot time and ANY look-up world. -/
+theorem C05_dead_caller_NSP_X (me : Caller) (recursive : Bool) (L : List Nat) (w0 wl : XWorld)
+    (h : (¬ ∃ pp, w0 me.pid = .ok pp me.ctime) ∨ me.gone = true ∨ me.reused = true) :
+    (childrenX xcfg me recursive L w0 wl).2 = .nsp me.pid := by
+  unfold childrenX
+  simp [xcfg_good.2, cfg_good.childrenGuarded, cfg_good.goneRaises, raiseX_true_of_dead h]
+
+/-- the row the table has for the caller's PID shows another start time — whatever its state: running,
+    zombie, or with an unreadable stat file -/
+def RecycledX (T : XTable) (me : Caller) : Prop :=
+  ∃ r, List.find? (fun r => r.pid == me.pid) T = some r ∧ r.start ≠ me.ctime
+
+theorem not_sameAt_of_recycledX {T : XTable} {me : Caller} (h : RecycledX T me) :
+    ¬ ∃ pp, T.read me.pid = .ok pp me.ctime := by
+  obtain ⟨r, hf, hne⟩ := h
+  rintro ⟨pp, hpp⟩
+  unfold XTable.read at hpp
+  rw [hf] at hpp
+  cases hst : r.st <;> simp [hst] at hpp
+  · exact hne hpp.2
+  · exact hne hpp.2
+
+/-- **C05_recycled_caller_NSP_X** — the last clause of the statement at table level in the rich world: the
+    caller's PID now belongs to a process with another start time, be that process running, a zombie or
+    unreadable, and whatever else in the table is unreadable: `children()` raises NoSuchProcess(pid);
+    so do `parent()` and `parents()` of a caller that is not the root, whatever the later look-ups show. -/
+theorem C05_recycled_caller_NSP_X (me : Caller) (recursive : Bool) (T0 : XTable) (wl : XWorld)
+    (h : RecycledX T0 me) :
+    (childrenX xcfg me recursive T0.pids T0.read wl).2 = .nsp me.pid :=
+  C05_dead_caller_NSP_X me recursive T0.pids T0.read wl (Or.inl (not_sameAt_of_recycledX h))
+
+/-- **C05_parents_dyn_dead_NSP.** `parents()` of a caller that is dead at its first identity check (and not
+    the root) raises NoSuchProcess(pid), whatever any world — readable or not — shows afterwards. -/
+theorem C05_parents_dyn_dead_NSP (fuel : Nat) (ps : Ps) (W : Nat → PStep) (me : Caller) (os : Oneshot) (low : Nat)
+    (hlow : lowestPidX ps (W 0).listing = (⟨some low⟩, some low)) (hos : ∀ pp, os ≠ some (some pp))
+    (hr : me.reused = false) (hgone : me.gone = false) (hroot : me.pid ≠ low)
+    (hdead : ¬ SameAt (W 0) me.pid me.ctime) :
+    (parentsX cfg (fuel + 1) ps W me os).2 = .nsp me.pid := by
+  rw [C05_parents_dyn_spec _ ps W me os low hlow hos hr hgone]
+  unfold chainDyn
+  rw [parentOfW_dead hroot hdead]
+
+theorem C05_recycled_caller_NSP_X_parent (fuel : Nat) (ps : Ps) (W : Nat → PStep) (me : Caller) (os : Oneshot)
+    (low : Nat) (T0 : XTable) (hlow : lowestPidX ps (W 0).listing = (⟨some low⟩, some low))
+    (hos : ∀ pp, os ≠ some (some pp)) (hr : me.reused = false) (hgone : me.gone = false) (hroot : me.pid ≠ low)
+    (hwi : (W 0).wi = T0.read) (h : RecycledX T0 me) :
+    (parentX cfg ps (W 0) me os).2.2.2 = .nsp me.pid ∧ (parentsX cfg (fuel + 1) ps W me os).2 = .nsp me.pid := by
+  have hdead : ¬ SameAt (W 0) me.pid me.ctime := by
+    unfold SameAt; rw [hwi]; exact not_sameAt_of_recycledX h
+  exact ⟨C05_parent_dyn_dead_NSP ps (W 0) me os low hlow hos hr hgone hroot hdead,
+    C05_parents_dyn_dead_NSP fuel ps W me os low hlow hos hr hgone hroot hdead⟩
+
+/-- **C05_children_value_exact.** NO hypothesis on the look-up world (processes may vanish, be recycled AND
+    turn unreadable while the tree is walked): whenever `children()` / `children(recursive=True)` returns a
+    value, it is exactly the `Child` / `Desc` set over the visible links, each once, never the caller. -/
+theorem C05_children_value_exact (me : Caller) (L : List Nat) (w0 wl : XWorld) (hL : L.Nodup)
+    (hr : me.reused = false) (hgone : me.gone = false) (ha : ∃ pp, w0 me.pid = .ok pp me.ctime) (l : List Nat) :
+    ((childrenX xcfg me false L w0 wl).2 = .ok l →
+        IsSetOf l (fun c => Child (linksOf L w0) (lookOfW wl) me.ctime me.pid c ∧ c ≠ me.pid))
+    ∧ ((childrenX xcfg me true L w0 wl).2 = .ok l →
+        IsSetOf l (fun c => Desc (linksOf L w0) (lookOfW wl) me.ctime me.pid c ∧ c ≠ me.pid)) := by
+  have hst : StaysReadable L w0 (undeny wl) := fun c _ _ => undeny_ne_denied wl c
+  constructor
+  · intro h
+    have h' := childrenX_undeny xcfg me false L w0 wl (by intro p hp; rw [h] at hp; cases hp)
+    obtain ⟨l', h1, h2⟩ := C05_unreadable_left_out me L w0 (undeny wl) hL hr hgone ha hst
+    rw [h1, h] at h'; cases h'
+    rw [lookOfW_undeny] at h2
+    exact h2
+  · intro h
+    have h' := childrenX_undeny xcfg me true L w0 wl (by intro p hp; rw [h] at hp; cases hp)
+    obtain ⟨l', h1, h2⟩ := C05_unreadable_left_out_rec me L w0 (undeny wl) hL hr hgone ha hst
+    rw [h1, h] at h'; cases h'
+    rw [lookOfW_undeny] at h2
+    exact h2
+
+/-- **C05_children_outcomes.** …and these are the only two outcomes for a live caller: a value (exact, by the
+    theorem above), or `AccessDenied(c)` for a PID `c` that is listed with a readable stat file at snapshot
+    time and unreadable when it is examined. Never NoSuchProcess, never a bare error, never divergence. -/
+theorem C05_children_outcomes (me : Caller) (recursive : Bool) (L : List Nat) (w0 wl : XWorld) (hL : L.Nodup)
+    (hr : me.reused = false) (hgone : me.gone = false) (ha : ∃ pp, w0 me.pid = .ok pp me.ctime) :
+    (∃ l, (childrenX xcfg me recursive L w0 wl).2 = .ok l)
+    ∨ ∃ c, (childrenX xcfg me recursive L w0 wl).2 = .denied c ∧ wl c = .denied
+        ∧ c ∈ L ∧ ∃ pp s, w0 c = .ok pp s := by
+  by_cases hd : ∃ c, (childrenX xcfg me recursive L w0 wl).2 = .denied c
+  · obtain ⟨c, hres⟩ := hd
+    obtain ⟨h1, h2⟩ := childrenX_denied xcfg xcfg_good.1 me recursive L w0 wl c hres
+    obtain ⟨e, he, rfl⟩ := List.mem_map.1 h1
+    obtain ⟨hL', s, hs⟩ := mem_linksOf.1 (show (e.1, e.2) ∈ linksOf L w0 from he)
+    exact Or.inr ⟨e.1, hres, h2, hL', e.2, s, hs⟩
+  · left
+    have h' := childrenX_undeny xcfg me recursive L w0 wl (fun p hp => hd ⟨p, hp⟩)
+    have hst : StaysReadable L w0 (undeny wl) := fun c _ _ => undeny_ne_denied wl c
+    cases recursive with
+    | false =>
+      obtain ⟨l, h1, _⟩ := C05_unreadable_left_out me L w0 (undeny wl) hL hr hgone ha hst
+      exact ⟨l, by rw [← h', h1]⟩
+    | true =>
+      obtain ⟨l, h1, _⟩ := C05_unreadable_left_out_rec me L w0 (undeny wl) hL hr hgone ha hst
+      exact ⟨l, by rw [← h', h1]⟩
+
+/-- **C05_parent_dyn_sound.** One `parent()` in ANY three worlds (anything may be unreadable): a process that
+    IS returned was the one named by the caller's ppid when looked up, not younger than the caller, the caller
+    still being itself; `None` IS returned only for the root, or when the named PID is gone or belongs to a
+    younger process. (Every other outcome is an exception: NoSuchProcess for a dead caller, AccessDenied.) -/
+theorem C05_parent_dyn_sound (ps : Ps) (s : PStep) (me : Caller) (os : Oneshot) (low : Nat)
+    (hlow : lowestPidX ps s.listing = (⟨some low⟩, some low)) (hos : ∀ pp, os ≠ some (some pp))
+    (hr : me.reused = false) (hgone : me.gone = false) :
+    (∀ q, (parentX cfg ps s me os).2.2.2 = .ok (some q) → SameAt s me.pid me.ctime ∧ ParentAt s me.pid me.ctime q)
+    ∧ ((parentX cfg ps s me os).2.2.2 = .ok none →
+        me.pid = low ∨ (SameAt s me.pid me.ctime ∧ ∃ pp st0, s.wo me.pid = .ok pp st0 ∧
+          (s.wp pp = .gone ∨ ∃ gp st, s.wp pp = .ok gp st ∧ me.ctime < st))) := by
+  rw [(parentX_spec cfg cfg_good ps s me os low hlow hos hr hgone).2]
+  constructor
+  · intro q h
+    cases hp : parentOfW s low me.pid me.ctime with
+    | none => rw [hp] at h; simp [PRes.toOut] at h
+    | nsp p => rw [hp] at h; simp [PRes.toOut] at h
+    | denied p => rw [hp] at h; simp [PRes.toOut] at h
+    | some q' =>
+      rw [hp] at h
+      simp only [PRes.toOut, XOut.ok.injEq, Option.some.injEq] at h
+      subst h
+      exact parentOfW_some hp
+  · intro h
+    cases hp : parentOfW s low me.pid me.ctime with
+    | none => exact parentOfW_none hp
+    | nsp p => rw [hp] at h; simp [PRes.toOut] at h
+    | denied p => rw [hp] at h; simp [PRes.toOut] at h
+    | some q' => rw [hp] at h; simp [PRes.toOut] at h
+
+/-! ### (c) oneshot: the stat memo filled by another method -/
+
+/-- **C05_oneshot_statmemo_parent.** Inside `with p.oneshot():` after ANOTHER stat-based method has filled the
+    memoised stat file in world `wc` (and `ppid()` itself has not been called yet): `parent()` is the process
+    named by `ppid()` — which now answers from the memo: the ppid as it was in `wc` — looked up afresh in `wp`
+    and tested against the caller's start time; and, unlike a cached `ppid()` (`C05_oneshot_parent_cached`),
+    the identity check still runs on a fresh read (`wi`): a caller recycled inside the block gets
+    NoSuchProcess even though the memo still shows the old incarnation. -/
+theorem C05_oneshot_statmemo_parent (ps : Ps) (s : PStep) (wc : XWorld) (me : Caller) (low : Nat)
+    (hlow : lowestPidX ps s.listing = (⟨some low⟩, some low)) (hr : me.reused = false) (hgone : me.gone = false) :
+    (parentX cfg ps (s.withStatMemo wc) me (some none)).2.2.2
+        = (parentOfW { s with wo := wc } low me.pid me.ctime).toOut
+    ∧ (me.pid ≠ low → ¬ SameAt s me.pid me.ctime →
+        (parentX cfg ps (s.withStatMemo wc) me (some none)).2.2.2 = .nsp me.pid) := by
+  have hos : ∀ pp, (some none : Oneshot) ≠ some (some pp) := by intro pp h; cases h
+  refine ⟨(parentX_spec cfg cfg_good ps (s.withStatMemo wc) me (some none) low hlow hos hr hgone).2, ?_⟩
+  intro hroot hdead
+  exact C05_parent_dyn_dead_NSP ps (s.withStatMemo wc) me (some none) low hlow hos hr hgone hroot hdead
+
+/-- the memo shows parent 20; meanwhile 30 was re-parented to 1: `parent()` still answers 20 (the process
+    named by `ppid()`); when that PID 20 now belongs to a younger process: None; when PID 30 is recycled inside the block the call raises instead -/
+example : (parentX cfg ⟨none⟩ ((stepOfX w2dyn).withStatMemo (XTable.read w0dyn)) ⟨30, 9, false, false⟩ (some none)).2.2.2
+      = .ok (some ⟨20, 1, 8⟩)
+    ∧ (parentX cfg ⟨none⟩ ((stepOfX w1dyn).withStatMemo (XTable.read w0dyn)) ⟨30, 9, false, false⟩ (some none)).2.2.2
+      = .ok none
+    ∧ (parentX cfg ⟨none⟩ ((stepOfX [⟨1, 0, 1, .run⟩, ⟨30, 1, 77, .run⟩]).withStatMemo (XTable.read w0dyn))
+        ⟨30, 9, false, false⟩ (some none)).2.2.2 = .nsp 30 := by
+  refine ⟨by decide, by decide, by decide⟩
+
+/-- the witnesses of (b): the new owner of the caller's PID 5 is unreadable, a zombie, or running — always
+    NoSuchProcess(5); a child turning unreadable mid-walk gives AccessDenied(6) or, when it is not examined, the
+    exact value -/
+example : RecycledX [⟨1, 0, 1, .run⟩, ⟨5, 1, 15, .denied⟩, ⟨6, 5, 20, .run⟩] ⟨5, 10, false, false⟩
+    ∧ (childrenX xcfg ⟨5, 10, false, false⟩ true (XTable.pids [⟨1, 0, 1, .run⟩, ⟨5, 1, 15, .denied⟩, ⟨6, 5, 20, .run⟩])
+        (XTable.read [⟨1, 0, 1, .run⟩, ⟨5, 1, 15, .denied⟩, ⟨6, 5, 20, .run⟩])
+        (XTable.read [⟨1, 0, 1, .run⟩, ⟨5, 1, 15, .denied⟩, ⟨6, 5, 20, .run⟩])).2 = .nsp 5
+    ∧ (childrenX xcfg ⟨1, 1, false, false⟩ false tDeny0.pids tDeny0.read tDeny1.read).2 = .ok [5] := by
+  refine ⟨⟨⟨5, 1, 15, .denied⟩, by decide, by decide⟩, by decide, by decide⟩
+
+/-! ### (d) a process that exits between `pids()` and the read of its stat file in `ppid_map()` -/
+
+/-- **C05_vanishing_needs_skip.** The listing still shows PID 6, its stat file is already gone when `ppid_map()`
+    gets to it ("processes vanishing while the tree is walked", at the earliest possible moment). With the fact
+    `ppidMapSkipsGone` (the `except` of `ppid_map()` lists FileNotFoundError and ProcessLookupError) the PID is
+    left out — the general statement is `C05_unreadable_left_out[_rec]`, whose listing `L` and world `w0` are
+    independent — and without it a bare `FileNotFoundError` escapes from `children()` of ANY process. -/
+theorem C05_vanishing_needs_skip :
+    (childrenX { xcfg with mapSkipsGone := false } ⟨1, 1, false, false⟩ false [1, 5, 6]
+        (XTable.read [⟨1, 0, 1, .run⟩, ⟨5, 1, 10, .run⟩]) (XTable.read [⟨1, 0, 1, .run⟩, ⟨5, 1, 10, .run⟩])).2
+      = .fileNotFound
+    ∧ (childrenX xcfg ⟨1, 1, false, false⟩ true [1, 5, 6]
+        (XTable.read [⟨1, 0, 1, .run⟩, ⟨5, 1, 10, .run⟩]) (XTable.read [⟨1, 0, 1, .run⟩, ⟨5, 1, 10, .run⟩])).2
+      = .ok [5] := by
+  refine ⟨by decide, by decide⟩
 
 end Psutil.C05
